@@ -16,7 +16,9 @@ use std::collections::BTreeSet;
 use std::collections::HashMap;
 use std::collections::HashSet;
 
-const UNIVERSE: &[&str] = &["0.9.0", "1.0.0", "1.1.0-beta.1", "1.1.0", "2.0.0"];
+// two pairs differ in their build metadata only: deno_semver's `Ord` ignores it (its `Eq`/`Hash` do
+// not), so the registry map can hold both and the selection has to break the tie itself (finding F37)
+const UNIVERSE: &[&str] = &["0.9.0", "1.0.0", "1.0.0+a", "1.1.0-beta.1", "1.1.0", "1.1.0+x", "2.0.0"];
 const REQS: &[&str] = &["*", "^1.0.0", "~1.0", "1.1.0", ">=1.1.0", "^2", "<1.0.0", "^1.1.0-beta", "1"];
 const CUTOFF: i64 = 30;
 
@@ -76,7 +78,7 @@ fn oracle(cfg: &Cfg, sat: &dyn Fn(usize) -> bool) -> Out {
 
 pub fn run(tier: &str, seed: u64) -> Report {
   let mut report = Report::new("C06");
-  report.rule = "selection function JsrVersionResolver::get_for_package(..).resolve_version(..) on a 5-version universe \
+  report.rule = "selection function JsrVersionResolver::get_for_package(..).resolve_version(..) on a 7-version universe (two pairs differing in build metadata only) \
     (incl. a prerelease) ordered by deno_semver: every registry subset of <=3 versions x yanked flag x created-at class \
     (none / before / after the cutoff) per version x 9 requirements x already-selected sets (empty, singletons, pairs and triples in several selection orders) x \
     cached sets (empty, all, singletons) x cutoff on/off; quick enumerates a 1-in-5 stride of that space, thorough all of it \
@@ -90,7 +92,8 @@ pub fn run(tier: &str, seed: u64) -> Report {
   let mut rng = Rng::new(seed ^ 0xC06);
   let versions: Vec<Version> = {
     let mut v: Vec<Version> = UNIVERSE.iter().map(|s| Version::parse_standard(s).unwrap()).collect();
-    v.sort();
+    // the model's order on versions: deno_semver's, ties broken on the build metadata
+    v.sort_by(|a, b| a.cmp(b).then_with(|| a.build.cmp(&b.build)));
     v
   };
   let reqs: Vec<VersionReq> = REQS.iter().map(|r| VersionReq::parse_from_specifier(r).or_else(|_| VersionReq::parse_from_npm(r)).unwrap()).collect();
@@ -109,7 +112,7 @@ pub fn run(tier: &str, seed: u64) -> Report {
     existing_sets.push(vec![i]);
   }
   // the already-selected versions arrive in the order they were selected, not sorted
-  existing_sets.extend([vec![0, 3], vec![3, 0], vec![1, 4], vec![4, 1], vec![3, 2], vec![3, 1, 4], vec![4, 3, 1]]);
+  existing_sets.extend([vec![0, 4], vec![4, 0], vec![1, 6], vec![6, 1], vec![4, 3], vec![4, 1, 6], vec![6, 4, 1], vec![1, 2], vec![2, 1], vec![5, 4]]);
 
   let mut batch = Batch::new();
   batch.descs.push(json!({"universe": UNIVERSE, "reqs": REQS}));
@@ -138,6 +141,29 @@ pub fn run(tier: &str, seed: u64) -> Report {
       Ok(r) => Out::Ok(versions.iter().position(|v| v == r.version).unwrap(), r.is_yanked),
       Err(e) => Out::NotFound(e.newest_dependency_date.is_some()),
     };
+    // the answer may not depend on the iteration order of the registry map: the same registry in
+    // three more maps (fresh hasher state each) has to give the same answer
+    for _ in 0..3 {
+      let mut vmap2 = HashMap::new();
+      for (v, y, c) in cfg.infos.iter().rev() {
+        vmap2.insert(versions[*v].clone(), JsrPackageInfoVersion { created_at: c.map(date), yanked: *y });
+      }
+      let info2 = JsrPackageInfo { versions: vmap2, latest: None };
+      let pv2 = resolver.get_for_package(&name, &info2);
+      let got2 = match pv2.resolve_version(&pr, existing.iter(), &cached) {
+        Ok(r) => Out::Ok(versions.iter().position(|v| v == r.version).unwrap(), r.is_yanked),
+        Err(e) => Out::NotFound(e.newest_dependency_date.is_some()),
+      };
+      if got2.show() != got.show() {
+        report.fail(
+          "oracle",
+          "selection-depends-on-map-order",
+          format!("the same registry, requirement and selections resolve to {} and to {} depending on the iteration order of the version map", got.show(), got2.show()),
+          json!({"cfg": format!("{:?}", cfg), "universe": versions.iter().map(|v| v.to_string()).collect::<Vec<_>>(), "req": REQS[cfg.req]}),
+        );
+        break;
+      }
+    }
     // the model gets the registry map in the HashMap's own iteration order
     let order: Vec<usize> = info.versions.keys().map(|k| versions.iter().position(|v| v == k).unwrap()).collect();
     let infos_s: Vec<String> = order
@@ -236,7 +262,7 @@ pub fn run(tier: &str, seed: u64) -> Report {
     }
   }
   if stride == 1 {
-    report.exhaustive.push("every registry of <= 3 versions over the 5-version universe x yanked x date class x 9 requirements x 9 selected sets x cached sets x cutoff".into());
+    report.exhaustive.push("every registry of <= 3 versions over the 7-version universe x yanked x date class x 9 requirements x 9 selected sets x cached sets x cutoff".into());
   }
   // larger registries, sampled
   let samples = if tier == "thorough" { 200_000 } else { 30_000 };
